@@ -43,12 +43,13 @@ fn automaton(run: &Run, tier: Tier) -> (u64, u64) {
     }
     run.add("table_entries", 256);
     // transitions: message [p0,p1,p2,b,0,0,0], bits=56 -> state after four bytes
-    let prefixes: u32 = if tier.thorough() { 1 << 24 } else { 1 << 16 };
+    let prefixes: u32 = if tier.thorough() { 1 << 24 } else { 1 << 20 };
     let bad = AtomicU64::new(0);
     let seen_states: Vec<AtomicU64> = (0..(1usize << 18)).map(|_| AtomicU64::new(0)).collect();
     (0..prefixes).into_par_iter().for_each(|p| {
         // quick: two leading bytes (states reachable in two bytes), third byte 0
-        let (p0, p1, p2) = if tier.thorough() { ((p >> 16) as u8, (p >> 8) as u8, p as u8) } else { ((p >> 8) as u8, p as u8, 0u8) };
+        // quick: all two-byte prefixes x 16 values of the third byte (its high nibble)
+        let (p0, p1, p2) = if tier.thorough() { ((p >> 16) as u8, (p >> 8) as u8, p as u8) } else { ((p >> 12) as u8, (p >> 4) as u8, ((p & 0xf) << 4) as u8) };
         let s3 = ref_step(ref_step(ref_step(0, p0), p1), p2);
         // the implementation's state after three bytes, read out with bits = 48
         let got3 = hooks::modes_checksum(&[p0, p1, p2, 0, 0, 0], 48);
@@ -437,7 +438,7 @@ pub fn run(tier: Tier) -> i32 {
         "traces_validated_against_impl": transitions,
         "evaluations": transitions + run.get("cases") + run.get("valid_frame_cases") + run.get("error_patterns_hook") + run.get("burst_patterns_hook") + run.get("error_patterns_api") + run.get("trailer_cases"),
         "distinct_nontrivial": transitions,
-        "rule": "checksum automaton: every (24-bit remainder, byte) transition of the table-driven loop vs bit-serial division (thorough: all 2^24 x 256; quick: all states reachable in two bytes x 256), all 256 table entries, trailer XOR, byte-position and bit-pair sweeps at n=7/14; Frame.crc on every dispatch leaf x context x bit-walk (+ garbage tail); valid-parity frames of every discipline; error patterns of weight <= 5/4 (hook) and <= 3/2 (API), bursts <= 24/16 (hook) and <= 12/8 (API)",
+        "rule": "checksum automaton: every (24-bit remainder, byte) transition of the table-driven loop vs bit-serial division (thorough: all 2^24 x 256; quick: 2^20 three-byte prefixes x 256), all 256 table entries, trailer XOR, byte-position and bit-pair sweeps at n=7/14; Frame.crc on every dispatch leaf x context x bit-walk (+ garbage tail); valid-parity frames of every discipline; error patterns of weight <= 5/4 (hook) and <= 3/2 (API), bursts <= 24/16 (hook) and <= 12/8 (API)",
         "exhaustive": tier.thorough(),
         "leaves": st.leaves,
     });
